@@ -47,7 +47,31 @@ func runRevStore(r *simcore.Run, thorough bool) {
 	}
 	faultRate := []int{0, 12, 40}[t.CfgDraw(3)]
 	store := shachain.NewRevocationStore()
-	r.Logf("revstore: seed=%x n=%d faultRate=1/%d", seed[:4], n, faultRate)
+
+	// Where the stream starts (drawn after every other configuration draw).
+	// Streaming from height 0 never gets past a few thousand secrets; the
+	// index space has 48 bits. In half of the runs the store is therefore
+	// first brought to the state it has after k0 secrets - assembled from the
+	// BOLT-3 definition (bucket b holds the last received index with exactly b
+	// trailing zero bits) in the store's own serialisation and loaded with
+	// NewRevocationStoreFromBytes - with k0 just below a power of two, just
+	// above one, or an arbitrary bit pattern, and the stream continues there.
+	k0 := uint64(0)
+	switch t.CfgDraw(4) {
+	case 2:
+		b := 3 + t.CfgDraw(44)
+		k0 = (uint64(1) << uint(b)) - uint64(t.CfgDraw(6))
+		if t.CfgDraw(3) == 0 && b < 44 {
+			// several high bits set: j * 2^b - c
+			k0 = (uint64(1+t.CfgDraw(7)) << uint(b)) - uint64(t.CfgDraw(6))
+		}
+	case 3:
+		for i := 0; i < 6; i++ {
+			k0 = k0<<8 | uint64(t.CfgDraw(256))
+		}
+		k0 &= (uint64(1) << 47) - 1
+	}
+	r.Logf("revstore: seed=%x n=%d faultRate=1/%d start=%d", seed[:4], n, faultRate, k0)
 
 	// what the store has accepted so far: index -> secret (by height)
 	accepted := 0 // heights 0..accepted-1 accepted
@@ -87,6 +111,49 @@ func runRevStore(r *simcore.Run, thorough bool) {
 		return true
 	}
 
+	if k0 > 0 {
+		var b bytes.Buffer
+		low := idxOf(k0 - 1) // lowest index received so far
+		var elems [][40]byte
+		for tz := 0; tz < 48; tz++ {
+			// the lowest index >= low with exactly tz trailing zero bits
+			step := uint64(1) << uint(tz)
+			x := (low + step - 1) &^ (step - 1)
+			if x&(step<<1-1) == 0 {
+				x += step // one more trailing zero than wanted
+			}
+			if x > idxOf(0) {
+				break
+			}
+			var e [40]byte
+			for i := 0; i < 8; i++ {
+				e[i] = byte(x >> uint(56-8*i))
+			}
+			sec := honest(idxOf(0) - x)
+			copy(e[8:], sec[:])
+			elems = append(elems, e)
+		}
+		b.WriteByte(byte(len(elems)))
+		for _, e := range elems {
+			b.Write(e[:])
+		}
+		next := idxOf(k0)
+		for i := 0; i < 8; i++ {
+			b.WriteByte(byte(next >> uint(56-8*i)))
+		}
+		ns, err := shachain.NewRevocationStoreFromBytes(bytes.NewReader(b.Bytes()))
+		if err != nil {
+			r.Harness("assembled store for %d received secrets does not load: %v", k0, err)
+		}
+		store = ns
+		accepted = int(k0)
+		n += accepted
+		r.Count("probe_store_started_at_large_height")
+		if k0 >= 1<<32 {
+			r.Count("probe_store_started_above_2^32")
+		}
+		checkLookups(r, store, accepted, honest, 24)
+	}
 	for accepted < n && r.Step() {
 		h := uint64(accepted)
 		sec := honest(h)
@@ -222,6 +289,14 @@ func checkLookups(r *simcore.Run, store shachain.Store, accepted int, honest fun
 			check(uint64(h))
 		}
 		check(uint64(accepted - 1))
+		// the neighbourhoods of the latest secrets: accepted-1-2^j
+		for j := uint(0); j < 48; j++ {
+			for d := -1; d <= 1; d++ {
+				if h := accepted - 1 - (1 << j) + d; h >= 0 && h < accepted {
+					check(uint64(h))
+				}
+			}
+		}
 	}
 	// an index not yet received must not be answered
 	if _, err := store.LookUp(uint64(accepted)); err == nil {
